@@ -34,6 +34,8 @@ def save_meta(sid, m):
 def scratch(patch=None):
     d = tempfile.mkdtemp(prefix="vp-seed-")
     subprocess.run(["rsync", "-a", "--exclude", "target", "--exclude", ".git", "--exclude", "seeded", "/repo/", d + "/"], check=True)
+    # fresh mtimes: a shared cargo target dir must never reuse an artefact built from another scratch copy
+    subprocess.run("find %s -name '*.rs' -exec touch {} +" % d, shell=True)
     if patch:
         # patches were made against an earlier /repo HEAD: apply with a little fuzz via `patch` if `git apply` refuses
         r = sh(["git", "apply", "--unsafe-paths", "--directory=" + d, patch], cwd="/")
@@ -82,7 +84,7 @@ def cmd_confirm(sid):
     run = find_run_sh(sid)
     ran = []
     ok = True
-    env = dict(os.environ, CARGO_TARGET_DIR=os.path.join(VERIF, ".cache", "seed-target"))
+    env = dict(os.environ, CARGO_TARGET_DIR=os.path.join(VERIF, ".cache", "seed-target"), CARGO_INCREMENTAL="0")
     # with the change
     d = scratch(patch)
     try:
